@@ -161,6 +161,7 @@ Print Assumptions C20_authorize_formats_as_modelled.
 Theorem C20_source_literals_as_modelled :
   assoc_bytes (bs "newCredentials#0:HasSuffix") string_tests = Some (bs "-sess") /\
   assoc_bytes (bs "parseChallenge#0:HasPrefix") string_tests = Some (bs "Digest ") /\
+  assoc_bytes (bs "createDigestAuth#0:HasPrefix") string_tests = Some (bs "Digest ") /\
   assoc_bytes (bs "parseChallenge#1:strings.ToUpper(unquoteParam(r[1]))!=") string_tests = Some (bs "UTF-8") /\
   assoc_bytes (bs "authorize#0:c.userhash==") string_tests = Some (bs "true") /\
   assoc_bytes (bs "authorize#1:c.algorithm!=") string_tests = Some [] /\
@@ -447,6 +448,31 @@ Theorem C20_session_every_answer_accepted : forall H,
     rfc7616_accepts H c (w_uri first) (w_method first) user pass cnonce hdr = true.
 Proof. exact session_every_answer_accepted. Qed.
 Print Assumptions C20_session_every_answer_accepted.
+
+(* ----- several WWW-Authenticate lines (one scheme each) ----- *)
+
+(* the Digest challenge is answered wherever it stands among lines of other schemes *)
+Theorem C20_digest_line_selected : forall pre c post,
+  forallb (fun l => negb (is_digest_line l)) pre = true -> is_digest_line c = true ->
+  select_challenge (pre ++ c :: post) = c.
+Proof. exact select_digest_line. Qed.
+Print Assumptions C20_digest_line_selected.
+
+(* no Digest line: an error, never a header *)
+Theorem C20_no_digest_line_is_error : forall lines,
+  forallb (fun l => negb (is_digest_line l)) lines = true ->
+  select_challenge lines = hd [] lines /\
+  (lines <> [] -> parse_challenge (select_challenge lines) = inr EBadChallenge).
+Proof. exact select_no_digest_line. Qed.
+Print Assumptions C20_no_digest_line_is_error.
+
+(* the pinned code looked at the first line only *)
+Theorem C20_pinned_first_line_refuted :
+  let lines := [bs "Basic realm=""fallback"""; bs "Digest realm=""r"", nonce=""n"", qop=""auth"""] in
+  parse_challenge (select_challenge_pinned lines) = inr EBadChallenge /\
+  exists c, parse_challenge (select_challenge lines) = inl c /\ supported c = true.
+Proof. exact select_pinned_refuted. Qed.
+Print Assumptions C20_pinned_first_line_refuted.
 
 (* the pinned (pre-fix) splitter rejected supported challenges; witnesses kept checked *)
 Theorem C20_pinned_split_refuted :
